@@ -490,7 +490,17 @@ where
             }
             Pattern::Tuple { ref elems, .. } => {
                 let (_, field) = self.select_spanned(&**elems, |elem| elem.span);
-                self.visit_pattern(field.unwrap());
+                match field {
+                    Some(field) => self.visit_pattern(field),
+                    // The unit pattern `()`
+                    None => {
+                        self.found = if current.span.containment(self.pos) == Ordering::Equal {
+                            MatchState::Found(Match::Pattern(current))
+                        } else {
+                            MatchState::Empty
+                        };
+                    }
+                }
             }
             Pattern::Ident(_) | Pattern::Literal(_) | Pattern::Error => {
                 self.found = if current.span.containment(self.pos) == Ordering::Equal {
@@ -577,6 +587,15 @@ where
                 _ => self.visit_expr(lhs),
             },
             Expr::LetBindings(ref bindings, ref expr) => {
+                // On the `let` keyword itself none of its bindings are in scope
+                let before_bindings = bindings
+                    .into_iter()
+                    .next()
+                    .map_or(false, |bind| self.pos < bind.name.span.start());
+                if before_bindings && current.span.containment(self.pos) == Ordering::Equal {
+                    self.found = MatchState::Empty;
+                    return;
+                }
                 if bindings.is_recursive() {
                     for bind in bindings {
                         self.on_found.on_pattern(&bind.name);
@@ -676,8 +695,11 @@ where
                 self.visit_any(iter)
             }
             Expr::Lambda(ref lambda) => {
-                for arg in &*lambda.args {
-                    self.on_found.on_ident(&arg.name.value);
+                // Left of the lambda its parameters are not in scope
+                if self.pos >= current.span.start() {
+                    for arg in &*lambda.args {
+                        self.on_found.on_ident(&arg.name.value);
+                    }
                 }
 
                 let selection = self.select_spanned(&*lambda.args, |arg| arg.name.span);
